@@ -148,10 +148,16 @@ impl Out {
 }
 
 /// Run `f`, converting a panic into Err(message). The global hook is silenced once.
+/// number of panics caught so far (a caught panic is data, never a "failed as required")
+pub static PANICS: std::sync::atomic::AtomicU64 = std::sync::atomic::AtomicU64::new(0);
+pub fn panics() -> u64 {
+    PANICS.load(std::sync::atomic::Ordering::Relaxed)
+}
 pub fn catch<T>(f: impl FnOnce() -> T + std::panic::UnwindSafe) -> Result<T, String> {
     static ONCE: std::sync::Once = std::sync::Once::new();
     ONCE.call_once(|| std::panic::set_hook(Box::new(|_| {})));
     std::panic::catch_unwind(f).map_err(|e| {
+        PANICS.fetch_add(1, std::sync::atomic::Ordering::Relaxed);
         if let Some(s) = e.downcast_ref::<&str>() {
             s.to_string()
         } else if let Some(s) = e.downcast_ref::<String>() {
